@@ -68,6 +68,8 @@ def jobs(tier):
     if not q:
         out.append(("hist3.announce.url-list", "job_history", dict(version=3, steps=[["announce"], ["url-list", "announce"], ["announce"]], route="lib")))
         out.append(("hist3.comment.source.private", "job_history", dict(version=1, steps=[["comment", "source"], ["private"], ["comment"]], route="lib")))
+    for version in (1, 2, 3):
+        out.append(("argv.v%d" % version, "job_argv", dict(version=version)))
     for version in (1, 3):
         out.append(("lib.v%d.topcomment" % version, "job_pair", dict(version=version, fields=["comment", "source"], route="lib", topcomment=True)))
     return out
@@ -144,6 +146,44 @@ def job_pair(E, version, fields, route, topcomment=False, _mutants=None):
             E.witnesses["field set while absent"] = True
     if all(f in ew.TOP for f in fields):
         E.witnesses["info-only untouched case"] = True
+
+
+ARGVS = [
+    (["--comment", "a new comment"], {"comment": "a new comment"}),
+    (["--tracker", "http://t/1", "http://t/2"], {"announce": ["http://t/1", "http://t/2"]}),
+    (["--web-seed", "http://w/1", "--http-seed", "http://h/1", "http://h/2"], {"url-list": ["http://w/1"], "httpseeds": ["http://h/1", "http://h/2"]}),
+    (["--private", "--source", "SRC"], {"private": True, "source": "SRC"}),
+    (["--comment", "", "--source", ""], {"comment": "", "source": ""}),
+    (["--source", "x", "--comment", "y", "--tracker", "http://t/9", "--private"], {"source": "x", "comment": "y", "announce": ["http://t/9"], "private": True}),
+]
+
+
+def job_argv(E, version, _mutants=None):
+    """The same edits through the real command line parser (cli.execute) on concrete argument vectors, options before
+    and after the positional metafile."""
+    force = {"comment-top": False}
+    if version == 1:
+        force["layers"] = True
+    fs, w, base = setup(E, version, force, _mutants)
+    i = E.choice("argv", len(ARGVS))
+    opts, req = ARGVS[i]
+    argv = ["edit"] + (opts + [MPATH] if E.choice("argv.positional-last", 2) and "--tracker" not in opts[-3:] and "--http-seed" not in opts
+                       else [MPATH] + opts)
+    E.note("argv", argv)
+    try:
+        w.mod("cli").execute(list(argv))
+    except Unsupported:
+        raise
+    except SystemExit as ex:
+        E.fail("C07.argv.parser-accepts", "%r: %s" % (argv, ex))
+        return
+    except Exception as ex:  # noqa: BLE001
+        E.fail("C07.argv.no-exception", "%r: %s: %s" % (argv, type(ex).__name__, ex))
+        return
+    after = ew.file_obj(fs)
+    if not E.check(isinstance(after, dict), "C07.argv.file-is-metafile"):
+        return
+    ew.check_edit(E, "C07.argv", base, after, [Expect(f, v, cli=True) for f, v in req.items()])
 
 
 def job_all(E, version, route, _mutants=None):
@@ -318,8 +358,35 @@ def conc_check(before, after, reqs, cli):
     return bad
 
 
+def _replay_argv(params, model, notes, workdir):
+    import io
+    import contextlib
+    import sys
+    import pyben
+    version = params["version"]
+    base = conc_base(version, model)
+    mpath = os.path.join(workdir, "m.torrent")
+    with open(mpath, "wb") as f:
+        f.write(refconc.bencode(base))
+    before = pyben.load(mpath)
+    opts, req = ARGVS[int(model.get("argv", 0))]
+    argv = [a if a != MPATH else mpath for a in notes.get("argv", ["edit", MPATH] + opts)]
+    cr.real_torrentfile()
+    import torrentfile.cli  # noqa: F401
+    cli = sys.modules["torrentfile.cli"]
+    try:
+        with contextlib.redirect_stdout(io.StringIO()), contextlib.redirect_stderr(io.StringIO()):
+            cli.execute(list(argv))
+    except BaseException as ex:  # noqa: BLE001
+        return ["C07.argv.no-exception: %r" % (ex,)]
+    after = pyben.load(mpath)
+    return ["C07.argv." + b for b in conc_check(before, after, [req], True)]
+
+
 def replay(params, model, notes, workdir, seed):
     import pyben
+    if "route" not in params:
+        return _replay_argv(params, model, notes, workdir)
     version, route = params["version"], params["route"]
     base = conc_base(version, model, params.get("topcomment", False))
     mpath = os.path.join(workdir, "m.torrent")
